@@ -14,6 +14,7 @@
 //             float over all non-NaN patterns (lossless compression of 2^32 - 2^24 evaluations)
 //   Pack      sampled channel tables + packed vectors of cvt_uint32(vec4f) / linear_to_srgba8
 //   Dist      two streams of a random distribution constructed from the same arguments
+//   DistHist  one history of ScalarKernelsDistADT on real distribution objects (New / Copy / Draw with a generator type / Colors)
 //   Lat* / Dru / Clamp* / Madd / Lerp / Sign / Deg2Rad / Rcp / Rsqrt / RcpSafe   single evaluations
 //
 // Built twice: default (rcpss / rsqrtss + Newton-Raphson) and with RKCOMMON_NO_SIMD.
@@ -488,6 +489,156 @@ static Json doDist(const Json &arg)
   return o;
 }
 
+// ---- histories on distribution OBJECTS (ScalarKernelsDistADT) ------------------------------------
+// The driver performs the steps of one history on real objects and records, per Draw, the raw outputs of the
+// generator handed to the object (a recording adaptor with the generator's own min() / max()), the values the
+// (used / copied) object returned, and the values of a FRESH object fed an identically seeded twin generator.
+static Json limbsOf(unsigned long long mag)
+{
+  Json m = Json::array();
+  if (mag == 0) m.push(Json(0));
+  while (mag) { m.push(Json((long long)(mag & 32767ULL))); mag >>= 15; }
+  return m;
+}
+template <typename G>
+struct RecGen
+{
+  typedef typename G::result_type result_type;
+  G g;
+  std::vector<unsigned long long> raws;
+  static constexpr result_type min() { return G::min(); }
+  static constexpr result_type max() { return G::max(); }
+  result_type operator()() { const result_type r = g(); raws.push_back((unsigned long long)r); return r; }
+};
+template <typename G> static void seedGen(G &g, unsigned s) { g.seed(s + 1u); }
+template <> void seedGen<pcg32>(pcg32 &g, unsigned s) { g.seed(s, 5u); }
+template <> void seedGen<EdgeGen>(EdgeGen &g, unsigned s) { g.i = s % 10u; }
+static Json pat(float v) { return fh(v); }
+static Json pat(double v) { return dq(v); }
+static float unpat(const Json &j, float) { return hf(j); }
+static double unpat(const Json &j, double) { return qd(j); }
+
+template <typename T, typename G>
+static void drawTwin(ru::uniform_real_distribution<T> &used, T lo, T hi, unsigned seed, int n, Json &o)
+{
+  RecGen<G> ga, gb;
+  seedGen(ga.g, seed); seedGen(gb.g, seed);
+  ru::uniform_real_distribution<T> fresh(lo, hi);
+  Json v = Json::array(), fv = Json::array(), raws = Json::array(), fraws = Json::array();
+  for (int i = 0; i < n; ++i) v.push(pat(used(ga)));
+  for (int i = 0; i < n; ++i) fv.push(pat(fresh(gb)));
+  for (size_t i = 0; i < ga.raws.size(); ++i) raws.push(limbsOf(ga.raws[i]));
+  for (size_t i = 0; i < gb.raws.size(); ++i) fraws.push(limbsOf(gb.raws[i]));
+  o.set("v", v); o.set("fv", fv); o.set("raws", raws); o.set("fraws", fraws);
+  o.set("gmin", limbsOf((unsigned long long)G::min())); o.set("gmax", limbsOf((unsigned long long)G::max()));
+}
+template <typename T>
+static Json histUrd(const Json &arg)
+{
+  const T lo = unpat(arg["lo"], T()), hi = unpat(arg["hi"], T());
+  const unsigned seed = (unsigned)arg["seed"].num();
+  std::vector<ru::uniform_real_distribution<T>> objs;
+  objs.reserve(64);      // objects are constructed in place and never moved: only the Copy action copies
+  objs.emplace_back(lo, hi);
+  Json out = Json::array();
+  const Json &steps = arg["steps"];
+  for (size_t k = 0; k < steps.size(); ++k) {
+    const std::string a = steps[k]["a"].str();
+    const Json &sa = steps[k]["arg"];
+    Json o = Json::object();
+    o.set("a", Json(a));
+    if (objs.size() >= 64) throw std::runtime_error("more than 64 objects in one history");
+    if (a == "New") objs.emplace_back(lo, hi);
+    else if (a == "Copy") objs.emplace_back(objs.at((size_t)sa["src"].num() - 1));      // the copy constructor
+    else if (a == "Draw") {
+      ru::uniform_real_distribution<T> &used = objs.at((size_t)sa["obj"].num() - 1);
+      const std::string g = sa["gen"].str();
+      const int n = (int)sa["n"].num();
+      const unsigned s = seed + 7919u * (unsigned)(k + 1);
+      if (g == "pcg32") drawTwin<T, pcg32>(used, lo, hi, s, n, o);
+      else if (g == "mt19937") drawTwin<T, std::mt19937>(used, lo, hi, s, n, o);
+      else if (g == "mt19937_64") drawTwin<T, std::mt19937_64>(used, lo, hi, s, n, o);
+      else if (g == "minstd_rand") drawTwin<T, std::minstd_rand>(used, lo, hi, s, n, o);
+      else if (g == "ranlux24") drawTwin<T, std::ranlux24>(used, lo, hi, s, n, o);
+      else if (g == "edge32") drawTwin<T, EdgeGen>(used, lo, hi, s, n, o);
+      else throw std::runtime_error("unknown generator type " + g);
+    } else
+      throw std::runtime_error("unknown history action " + a);
+    out.push(o);
+  }
+  return out;
+}
+static Json histBiased(const Json &arg)
+{
+  const float lo = hf(arg["lo"]), hi = hf(arg["hi"]);
+  const int seed = (int)arg["seed"].num(), seq = (int)arg["seq"].num();
+  std::vector<ru::pcg32_biased_float_distribution> objs;
+  objs.reserve(64);      // constructed in place, never moved: only the Copy action copies
+  objs.emplace_back(seed, seq, lo, hi);
+  Json out = Json::array();
+  const Json &steps = arg["steps"];
+  for (size_t k = 0; k < steps.size(); ++k) {
+    const std::string a = steps[k]["a"].str();
+    const Json &sa = steps[k]["arg"];
+    Json o = Json::object();
+    o.set("a", Json(a));
+    if (objs.size() >= 64) throw std::runtime_error("more than 64 objects in one history");
+    if (a == "New") objs.emplace_back(seed, seq, lo, hi);
+    else if (a == "Copy") objs.emplace_back(objs.at((size_t)sa["src"].num() - 1));      // the copy constructor
+    else if (a == "Draw") {
+      ru::pcg32_biased_float_distribution &used = objs.at((size_t)sa["obj"].num() - 1);
+      const int n = (int)sa["n"].num(), skip = (int)sa["skip"].num();
+      // the fresh object and the two shadow generators start from the constructor arguments and advance to the position the specification computed
+      ru::pcg32_biased_float_distribution fresh(seed, seq, lo, hi);
+      pcg32 ga, gb;
+      ga.seed(seed, seq); gb.seed(seed, seq);
+      for (int i = 0; i < skip; ++i) { (void)fresh(); (void)ga(); (void)gb(); }
+      Json v = Json::array(), fv = Json::array(), raws = Json::array(), fraws = Json::array();
+      for (int i = 0; i < n; ++i) v.push(fh(used()));
+      for (int i = 0; i < n; ++i) { fv.push(fh(fresh())); raws.push(limbsOf(ga())); fraws.push(limbsOf(gb())); }
+      o.set("v", v); o.set("fv", fv); o.set("raws", raws); o.set("fraws", fraws);
+      o.set("gmin", limbsOf(pcg32::min())); o.set("gmax", limbsOf(pcg32::max()));
+    } else
+      throw std::runtime_error("unknown history action " + a);
+    out.push(o);
+  }
+  return out;
+}
+static Json histColor(const Json &arg)
+{
+  const unsigned base = (unsigned)arg["seed"].num();
+  Json out = Json::array();
+  const Json &steps = arg["steps"];
+  for (size_t k = 0; k < steps.size(); ++k) {
+    const Json &sa = steps[k]["arg"];
+    const std::string order = sa["order"].str();
+    const unsigned n = (unsigned)sa["n"].num();
+    Json o = Json::object(), idx = Json::array(), v = Json::array();
+    o.set("a", Json(steps[k]["a"].str()));
+    for (unsigned i = 0; i < n; ++i) {
+      const unsigned j = order == "up" ? i : order == "down" ? n - 1 - i : order == "stride7" ? (i * 7u) % n : i % 3u;
+      const rm::vec3f c = ru::makeRandomColor(base + j);
+      Json t = Json::array();
+      t.push(fh(c.x)); t.push(fh(c.y)); t.push(fh(c.z));
+      idx.push(halves(base + j)); v.push(t);
+    }
+    o.set("idx", idx); o.set("v", v);
+    out.push(o);
+  }
+  return out;
+}
+static Json doDistHist(const Json &arg)
+{
+  const std::string kind = arg["kind"].str();
+  Json o = Json::object();
+  if (kind == "urd_f") o.set("steps", histUrd<float>(arg));
+  else if (kind == "urd_d") o.set("steps", histUrd<double>(arg));
+  else if (kind == "biased") o.set("steps", histBiased(arg));
+  else if (kind == "color") o.set("steps", histColor(arg));
+  else throw std::runtime_error("unknown distribution object kind " + kind);
+  return o;
+}
+
 // ---- single evaluations ---------------------------------------------------------------------
 template <typename T>
 static Json druT(const Json &arg)
@@ -606,6 +757,7 @@ struct World
     if (a == "Runs") return doRuns(arg);
     if (a == "Pack") return doPack(arg);
     if (a == "Dist") return doDist(arg);
+    if (a == "DistHist") return doDistHist(arg);
     if (a == "LatSign") return scaled(rm::sign((float)arg["x"].num() / 8.f), 1.0);
     if (a == "LatMadd")
       return scaled(rm::madd((float)arg["a"].num() / 8.f, (float)arg["b"].num() / 8.f, (float)arg["c"].num() / 8.f), 64.0);
